@@ -269,6 +269,25 @@ inline bool exec(Env& e, const Op& op) {
   } else if (n == "cyl") {
     e.pushM(Manifold::Cylinder(U(A(0), .3, 1.2), U(A(1), .2, .6), U(A(2), .1, .6), 3 + (int)((A(3) % 400 + 400) % 400),
                                A(4) % 2));
+  } else if (n == "ctor") {
+    // the constructors' parameter grid: shape of the 2D input x divisions x twist x top scale / revolve
+    // angle and axis contact / cylinder cone and segment count
+    const int shape = (int)((A(0) % 4 + 4) % 4), mode = (int)((A(1) % 6 + 6) % 6), q = (int)((A(2) % 1000 + 1000) % 1000);
+    const double r = .4 + .001 * (q % 400);
+    const int seg = 3 + q % 13;
+    CrossSection ring = CrossSection::Circle(r, seg) - CrossSection::Circle(r * .5, 3 + seg / 2);
+    CrossSection isle = CrossSection::Square(vec2(r, r * .7), true).Translate(vec2(2.5 * r, .1));
+    CrossSection x = shape == 0 ? CrossSection::Circle(r, seg) : (shape == 1 ? ring : (shape == 2 ? CrossSection::Circle(r, seg) + isle : ring + isle));
+    const double top[3] = {0.0, 0.5, 1.0};
+    if (mode < 3) {
+      e.pushM(Manifold::Extrude(x.ToPolygons(), .3 + r, q % 4, (q % 3 == 0) ? 0.0 : 10.0 + q % 80, vec2(top[mode])));
+    } else if (mode == 3) {
+      e.pushM(Manifold::Extrude(x.ToPolygons(), .3 + r, q % 3, 0.0, vec2(q % 2 ? 0.0 : 1.0, q % 2 ? 1.0 : 0.0)));  // wedge: one axis collapses
+    } else if (mode == 4) {
+      e.pushM(Manifold::Revolve(x.Translate(vec2((q % 3) * r, 0)).ToPolygons(), 3 + q % 20, q % 2 ? 360.0 : 30.0 + q % 300));
+    } else {
+      e.pushM(Manifold::Cylinder(.3 + r, r, (q % 3 == 0) ? 0.0 : ((q % 3 == 1) ? -1.0 : r * .5), q % 2 ? 0 : seg, q % 5 == 0));
+    }
   } else if (n == "tet") {
     e.pushM(Manifold::Tetrahedron());
   } else if (n == "levelset") {
@@ -276,8 +295,9 @@ inline bool exec(Env& e, const Op& op) {
     e.pushM(Manifold::LevelSet(sdf_kind(A(2), A(0)), Box(vec3(-1), vec3(1)), edge, 0, -1, A(3, 1) % 2));
   } else if (n == "extrude") {
     if (needX())
+      // every third extrusion is a cone (scaleTop 0,0: one apex vertex per contour instead of a top ring)
       e.pushM(Manifold::Extrude(e.x(A(0)).ToPolygons(), U(A(1), .2, 1), (int)((A(2) % 4 + 4) % 4), U(A(3), 0, 60) * (A(3) % 2),
-                                vec2(U(A(4, 999), .3, 1))));
+                                A(4, 999) % 3 == 0 ? vec2(0.0) : vec2(U(A(4, 999), .3, 1))));
   } else if (n == "revolve") {
     if (needX())
       e.pushM(Manifold::Revolve(e.x(A(0)).Translate(vec2(U(A(3), 0, 1.5), 0)).ToPolygons(), 3 + (int)((A(1) % 40 + 40) % 40),
@@ -619,6 +639,14 @@ inline bool exec(Env& e, const Op& op) {
   // ---------------- 2D
   else if (n == "circle") {
     e.pushX(CrossSection::Circle(U(A(0), .3, 1), 3 + (int)((A(1) % 2000 + 2000) % 2000)));
+  } else if (n == "xmulti") {
+    // several contours: an annulus, two islands, or an island next to an annulus
+    const double r = U(A(1), .3, .8);
+    const int seg = 3 + (int)((A(2) % 20 + 20) % 20);
+    CrossSection ring = CrossSection::Circle(r, seg) - CrossSection::Circle(r * U(A(2), .3, .7), 3 + seg / 2);
+    CrossSection isle = CrossSection::Square(vec2(r, r * .7), true).Translate(vec2(2.5 * r, .1));
+    const int k = (int)((A(0) % 3 + 3) % 3);
+    e.pushX(k == 0 ? ring : (k == 1 ? CrossSection::Circle(r, seg) + isle : ring + isle));
   } else if (n == "square") {
     e.pushX(CrossSection::Square(vec2(U(A(0), .3, 1.5), U(A(1), .3, 1.5)), A(2) % 2));
   } else if (n == "xpoly") {
